@@ -691,8 +691,8 @@ class C11(ShapesPlan):
         j += thin_jobs("dbg", 10000 if big else 200, 220, seed, (), (), nshards=4 if big else 1)
         j += thin_jobs("dbg", 10000 if big else 200, 220, seed, (), (), nshards=4 if big else 1, engine="slices")
         # pointer provenance of transient handles (with_raw_offset_arc, borrow_arc, ...) is only visible to the interpreter
-        j += miri_hist_jobs(48 if big else 8, 140 if big else 70, seed, p, tb_every=4, first0=17 * 10 ** 6)
-        j += miri_hist_jobs(16 if big else 3, 140 if big else 70, seed, p, tb_every=4, engine="thin", first0=18 * 10 ** 6)
+        j += miri_hist_jobs(48 if big else 8, 140 if big else 70, seed, ("C11",), tb_every=4, first0=17 * 10 ** 6)
+        j += miri_hist_jobs(16 if big else 3, 140 if big else 70, seed, ("C11",), tb_every=4, engine="thin", first0=18 * 10 ** 6)
         return j
     rule = ("same declared matrix as C05; one evaluation = one case in which as_ptr / &*handle / into_raw / OffsetArc and ArcBorrow bit patterns / arc-swap RefCnt pointers are compared with each "
             "other and with the block address recorded by the shadow allocator, from_raw-style round trips (also through a trait-object cast) are checked for same allocation, contents "
